@@ -220,16 +220,9 @@ theorem translated_exDeliverToNode (σ : Env) :
 /-- Executor.deliverMessage, translated: the source is asked once and receives the message iff it accepts the type; every root
 subtree is visited regardless of what the source did; a failing receipt is recorded; the recorded failures are returned -/
 theorem translated_exDeliverMessage (σ : Env) :
-    obs Trans.exDeliverMessage σ =
-      ⟨[("newContextMessage", [σ "msg"]), ("e.source.AcceptsMessage", [σ "ctxMsg.MessageType"])] ++
-        (if σ "e.source.AcceptsMessage#0" ≠ 0 then
-          [("e.source.Receive", [σ "newContextMessage#0"])] ++
-          (if σ "e.source.Receive#0" ≠ 0 then [("errorList.addError", [σ "e.source.Receive#0"])] else [])
-         else []) ++
-        [("foreach e.rootNodes: e.deliverMessageToNode", [σ "newContextMessage#0", σ "rootNode", σ "&errorList{}"])],
-       some [σ "errorList.errors"], false⟩ := by
+    obs Trans.exDeliverMessage σ = TransExpected.exDeliverMessage σ := by
   by_cases h1 : σ "e.source.AcceptsMessage#0" = 0 <;> by_cases h2 : σ "e.source.Receive#0" = 0 <;>
-  minigo_simp [Trans.exDeliverMessage, h1, h2]
+  minigo_simp [TransExpected.exDeliverMessage, Trans.exDeliverMessage, h1, h2]
 
 
 /-- what deliverMessageToNode reads at one node: whether the node accepts the type and whether its Receive fails -/
